@@ -80,4 +80,48 @@ theorem playForMiner_ok_pointer (e : Env) (s : St) (lh : Int) (b : Block) (h : (
     · intro h; cases h
     · intro _; rfl
 
+-- ------------------------------------------------------------------ the paths at the intermediate blocks of a walk
+
+/-- `todoBlock` moves the pointer to the block it applied -/
+theorem todoBlock_pointer (e : Env) (s s' : St) (lh : Int) (b : Block) (h : todoBlock e s lh b = some s') :
+    s'.pointer = b.id := by
+  unfold todoBlock at h
+  split at h
+  · cases h
+  · split at h
+    · simp only [Option.some.injEq] at h
+      rw [← h]
+    · cases h
+
+/-- a non-empty prefix of the ancestor list of `p` starts with `p`, and the rest of it is a prefix of the ancestor list of
+the block the undo of `p` moves the pointer to (the parent; `0` for a root, and then the rest is empty) -/
+theorem ancestors_prefix_step (e : Env) (hpl : ParentLower e) (p bi : Nat) (rest tl : List Nat)
+    (h : ancestors e (e.blocks.length + 1) p = (bi :: rest) ++ tl) :
+    bi = p ∧ ∃ tl', ancestors e (e.blocks.length + 1) ((e.block p).pre.getD 0) = rest ++ tl' := by
+  cases hp : (e.block p).pre with
+  | none =>
+    rw [ancestors_succ_none e _ p hp] at h
+    simp only [List.cons_append, List.cons.injEq] at h
+    obtain ⟨h1, h2⟩ := h
+    have hr : rest = [] := by
+      cases rest with
+      | nil => rfl
+      | cons x r => simp at h2
+    exact ⟨h1.symm, _, by rw [hr]; rfl⟩
+  | some q =>
+    rw [ancestors_child e hpl p q hp] at h
+    simp only [List.cons_append, List.cons.injEq] at h
+    exact ⟨h.1.symm, tl, h.2⟩
+
+/-- every block on the path root..dest has, as its own path, the part of that path up to itself -/
+theorem path_prefix (e : Env) (hpl : ParentLower e) (dest c : Nat) (l1 l2 : List Nat)
+    (h : (ancestors e (e.blocks.length + 1) dest).reverse = l1 ++ c :: l2) :
+    (ancestors e (e.blocks.length + 1) c).reverse = l1 ++ [c] := by
+  have h' : ancestors e (e.blocks.length + 1) dest = l2.reverse ++ c :: l1.reverse := by
+    have := congrArg List.reverse h
+    rw [List.reverse_reverse] at this
+    rw [this]; simp
+  have := ancestors_tail_eq e hpl dest c _ _ h'
+  rw [← this]; simp
+
 end XV.Chain
